@@ -71,10 +71,17 @@ Example taken_not_closed :
   closes s = [] /\ taken s = [0] /\ caller_fds s = [0] /\ table_list s = [(0, 0)] /\ all_dropped s.
 Proof. vm_compute. auto. Qed.
 
-(* a taken descriptor inside a body is not sent, although UNIX_FDS still counts it *)
+(* a body one of whose descriptors was taken is refused: nothing is sent (commit 955c136; the old
+   behaviour, UNIX_FDS 1 with no descriptor attached, is History/SendTakenOld.v) *)
 Definition h7 : list op := h1 ++ [Unmarshal 0%nat 0; Take 1%nat].
-Example send_skips_taken : snd (step (run h7 init) (Send 0%nat)) = RSent 1 0.
-Proof. vm_compute. reflexivity. Qed.
+Example send_refuses_taken : step (run h7 init) (Send 0%nat) = (run h7 init, RErr).
+Proof.
+  set (s := run h7 init).
+  assert (Hb : lookup_b s 0%nat = Some (mkBody [1%nat] [0])) by (vm_compute; reflexivity).
+  assert (Hc : negb (len (get_raw_fds s (mkBody [1%nat] [0])) =? len (bfds (mkBody [1%nat] [0]))) = true)
+    by (vm_compute; reflexivity).
+  cbn [step]. rewrite Hb. cbv zeta. rewrite Hc. reflexivity.
+Qed.
 
 (* the hypotheses of C11_index_is_position are satisfiable *)
 Example pushed_example :
